@@ -268,6 +268,23 @@ def dup_case(rng, mode=None, m=None, family=None):
     return case
 
 
+def tiny_share_case(rng):
+    """a stage whose optimum gives one alternative a TINY positive share: all criteria maximised, the bound of one criterion set a
+    hair above what the best alternative alone consumes, so a second alternative enters the basis with a share of 1e-5 .. 1e-3.
+    (participation counts and normalised shares must count such a share like any other positive one)"""
+    base = [[10.0, 10.0, 20.0], [10.0, 20.0, 10.0], [3.0, 9.0, 9.0]]
+    k = 2.0 ** rng.randint(-3, 3)  # the same problem in other (exact) units
+    rows = [0, 1, 2]
+    cols = [0, 1, 2]
+    rng.shuffle(cols)
+    mat = [[base[j][i] * k for j in rows] for i in cols]
+    eps = rng.choice([0.006, 0.002, 0.0005, 0.02])
+    b = [None, None, None]
+    b[1] = (10.0 + eps) * k
+    return {"kind": "simus", "matrix": mat, "objectives": [1, 1, 1], "b": b, "rank_by": rng.choice([1, 1, 2]), "family": "float",
+            "bmode": "partial", "dtype": "float64", "tiny_share": eps}
+
+
 def zero_b_case(rng, m=None):
     """a user bound of 0 on a maximise criterion k (all criteria maximised: with a minimise criterion the other stages would
     be infeasible): every stage but k's has the zero vector as its only feasible point, its stage row is all zero"""
@@ -437,6 +454,9 @@ def gen(ctx):
         cases.append(dup_case(rng, mode=DUP_MODES[i % len(DUP_MODES)]))
     for _ in range(ctx.n(4, 40)):
         cases.append(zero_b_case(rng))
+    # a fixed share: stages in which an alternative enters with a tiny positive share
+    for _ in range(ctx.n(8, 60)):
+        cases.append(tiny_share_case(rng))
     # the caller's own numpy b (None entries) reused over several evaluate() calls on different decision matrices
     for i in range(ctx.n(12, 120)):
         cases.append(history_case(rng, bmode="partial" if i % 4 else None))
